@@ -1239,6 +1239,16 @@ def scenarios_names():
             'A': lambda d: Req('PUT', '/resource_classes/CUSTOM_UNUSED',
                                '1.2', {'name': 'CUSTOM_X'}),
             'B': put_rc('CUSTOM_X', '1.7')}),
+        ('rename rc 1.6 | delete that rc', {
+            'A': lambda d: Req('PUT', '/resource_classes/CUSTOM_UNUSED',
+                               '1.6', {'name': 'CUSTOM_RENAMED'}),
+            'B': del_rc('CUSTOM_UNUSED')}),
+        ('delete rc | delete same rc | put rc X (takes the freed id)', {
+            'A': del_rc('CUSTOM_UNUSED'), 'B': del_rc('CUSTOM_UNUSED'),
+            'C': put_rc('CUSTOM_X')}),
+        ('delete trait | delete same trait | put trait X', {
+            'A': del_trait('CUSTOM_UNUSED'), 'B': del_trait('CUSTOM_UNUSED'),
+            'C': put_trait('CUSTOM_TX')}),
         ('put trait X | put trait X', {'A': put_trait('CUSTOM_TX'),
                                        'B': put_trait('CUSTOM_TX')}),
         ('put trait X | put trait Y', {'A': put_trait('CUSTOM_TX'),
